@@ -351,7 +351,16 @@ ToIntConv(v) ==
     [] OTHER -> [ok |-> FALSE, n |-> 0, ex |-> FALSE]
 
 \* stores sharing a possibly-hidden capacity with store s
-Partners(h, s) == {p[2] : p \in {q \in h.pairs : q[1] = s}} \cup {p[1] : p \in {q \in h.pairs : q[2] = s}}
+\* (transitively: d := append(c, x) in place of c := append(b, y) in place of b shares with b)
+Direct(h, s) == {p[2] : p \in {q \in h.pairs : q[1] = s}} \cup {p[1] : p \in {q \in h.pairs : q[2] = s}}
+RECURSIVE Closure_(_, _, _, _)
+Closure_(h, seen, frontier, fwd) ==
+  IF frontier = {} THEN seen
+  ELSE LET nxt == (UNION {IF fwd THEN {p[2] : p \in {q \in h.pairs : q[1] = s}} ELSE Direct(h, s) : s \in frontier}) \ seen
+       IN Closure_(h, seen \cup nxt, nxt, fwd)
+Partners(h, s) == Closure_(h, {s}, {s}, FALSE) \ {s}
+\* the stores that grew out of s: appending to s beyond its known length could clobber what they show
+Results(h, s) == Closure_(h, {s}, {s}, TRUE) \ {s}
 
 IndexSet(h, v, i, x) ==   \* returns Ok(h', VUndef) or an error
   CASE v.k = "array" /\ ~v.imm ->
